@@ -153,6 +153,41 @@ def one_case(acc, g, lib, rq, an, rc, shape, sid_len):
         acc.sample({"pair": info["pair"], "result_code": rc, "shape": info["shape"], "session_id_len": info["sid_len"]})
 
 
+def template_case(acc, g, rc, shape):
+    """One answer object kept by the application and returned for request after request (a prebuilt template): every time it
+    leaves, it carries the identity of the request it answers now and a Message Length that matches what is sent."""
+    from bromelia.base import DiameterRequest, DiameterAnswer, DiameterHeader
+    from bromelia.avps import SessionIdAVP, ResultCodeAVP, OriginHostAVP, ExperimentalResultAVP, VendorIdAVP, ExperimentalResultCodeAVP
+    r = g.rng
+    f = g.header_fields()
+    an = DiameterAnswer(command_code=f["code"], application_id=r.choice([0, f["app_id"], 16777251]))
+    an.append(SessionIdAVP(g.octets(residue=r.randrange(4), minlen=5)))
+    if shape in ("rc", "both"):
+        an.append(ResultCodeAVP(rc))
+    if shape in ("er", "both"):
+        an.append(ExperimentalResultAVP([VendorIdAVP(10415), ExperimentalResultCodeAVP(rc)]))
+    an.append(OriginHostAVP(g.identity()))
+    uses = r.randrange(2, 6)
+    for k in range(uses):
+        rq = DiameterRequest(header=DiameterHeader(command_code=f["code"], application_id=f["app_id"], hop_by_hop=r.randrange(2 ** 32), end_to_end=r.randrange(2 ** 32)))
+        has_sid = r.random() < 0.75
+        sid = g.octets(residue=r.randrange(4), minlen=5)
+        if has_sid:
+            rq.append(SessionIdAVP(sid))
+        rq.append(OriginHostAVP(g.identity()))
+        # after its first use the template has lost the Result-Code it carried beside an Experimental-Result
+        has_rc = shape == "rc" or (shape == "both" and k == 0)
+        info = {"pair": "template", "rc": rc if has_rc else None, "er": shape in ("er", "both"), "shape": "template-%s-use%d" % (shape, min(k, 2)),
+                "answer_has_sid": True, "sid_len": len(sid)}
+        acc.evaluations += 1
+        acc.counters["template_answers_reused"] += k > 0
+        acc.sigs.add(harness.sig_hash("template/%s/f%s/%s/%d/u%d" % (shape, rc // 1000 if rc < 10000 else "big", has_sid, len(sid) % 4, min(k, 3))))
+        nv = len(acc.violations)
+        judge(acc, rq, an, info, {"info": info, "use": k, "header": f, "request_wire": rq.dump().hex(), "answer_wire_before": an.dump().hex()})
+        if len(acc.violations) > nv:
+            return
+
+
 def generic_case(acc, g, rc):
     from bromelia.base import DiameterRequest, DiameterAnswer, DiameterHeader
     from bromelia.avps import SessionIdAVP, ResultCodeAVP, OriginHostAVP
@@ -232,6 +267,13 @@ def route_stage(acc, g, b):
                 continue
             if not request.has_avp("session_id_avp"):
                 continue
+            tkey = rt["cls"].__name__
+            if style == "reused-answer-object" and tkey in reused:
+                # the template built for an earlier request leaves again, untouched by the handler: what it carries now is what
+                # its first use left in it (a Result-Code beside an Experimental-Result was taken out then)
+                _a, rc, shape0 = reused[tkey]
+                shape = "er" if shape0 == "both" else "rc" if shape0 == "e-preset" else shape0
+                acc.counters["routed_template_reuses"] += 1
 
             def produce(req, rt, rc=rc, shape=shape, style=style):
                 avps = [SessionIdAVP(b"handler;1;1") if style != "from-request-header" else req.session_id_avp]
@@ -262,17 +304,11 @@ def route_stage(acc, g, b):
                     a = DiameterAnswer(header=DiameterHeader(command_code=req.header.command_code, application_id=req.header.application_id,
                                                              hop_by_hop=req.header.hop_by_hop, end_to_end=req.header.end_to_end), avps=avps)
                 elif style == "reused-answer-object" and rt["cls"].__name__ in reused:
-                    # the application keeps one answer object per command and refreshes its Result-Code for every request
-                    a = reused[rt["cls"].__name__]
-                    for nm in ("result_code_avp", "experimental_result_avp"):
-                        if a.has_avp(nm):
-                            a.pop(nm)
-                    for x in avps[1:-2]:
-                        a.append(x)
+                    return reused[rt["cls"].__name__][0]
                 else:
                     a = DiameterAnswer(command_code=rt["code"], application_id=rt["app_id"], avps=avps)
                     if style == "reused-answer-object":
-                        reused[rt["cls"].__name__] = a
+                        reused[rt["cls"].__name__] = (a, rc, shape)
                 if shape == "e-preset" and not a.header.is_error():
                     a.header.set_error_bit(True)
                 return a
@@ -348,6 +384,8 @@ def run_batch(b):
     elif b["kind"] == "generic":
         for _ in range(b["n"]):
             generic_case(acc, g, r.choice([r.randrange(2 ** 32), r.randrange(1000, 6000), 2001, 5012, 3008, 4100]))
+        for _ in range(b["n"] // 6):
+            template_case(acc, g, r.choice([r.randrange(1001, 6000), 2001, 5012, 3008, 4100, 5420]), r.choice(["rc", "er", "both", "both"]))
     return acc
 
 
@@ -374,7 +412,7 @@ def main(tier, seed):
                           ["multiples of 1000 and answers carrying both Result-Code and Experimental-Result are not judged for the E flag",
                            "an answer without Session-Id for a request that has one makes decorate_answer raise AttributeError: observed, not judged (the statement does not cover it)",
                            "the message that reaches the connection worker is judged with the same oracle in the route stage (real Bromelia object, in-process workers, handlers building their answers in five styles) and on the real loopback"],
-                          t0, require_counters=("decorate_calls", "e_flag_judged", "routed_answers_judged", "real_loopback_ok"))
+                          t0, require_counters=("decorate_calls", "e_flag_judged", "template_answers_reused", "routed_answers_judged", "real_loopback_ok"))
 
 
 def replay(w):
